@@ -117,6 +117,50 @@ func init() {
 				}
 			}
 		}},
+		Stream{"verify.signatureShapes", func(c *Ctx) {
+			// a signature is valid in exactly one spelling: DER ECDSA without anything after or inside it, RSA of exactly the modulus length
+			// (also when its first octet is zero), Ed25519 of exactly 64 bytes
+			r := c.R
+			for _, alg := range allAlgs {
+				kp := genKeyPair(r, alg)
+				key := hx(kp.COSE(true))
+				run := func(class string, msg, sig []byte, expect bool) {
+					executors["cose.verify"](c, "verify.signatureShapes", M{"op": "cose.verify", "key": key, "data": hx(msg), "sig": hx(sig),
+						"class": fmt.Sprintf("alg%d-%s", alg, class), "expect": expect})
+				}
+				msg := r.Bytes(40)
+				sig := kp.Sign(msg)
+				run("genuine", msg, sig, true)
+				run("trailing-00", msg, append(append([]byte{}, sig...), 0), false)
+				run("trailing-garbage", msg, append(append([]byte{}, sig...), r.Bytes(1+r.Intn(16))...), false)
+				run("leading-00", msg, append([]byte{0}, sig...), false)
+				run("truncated", msg, sig[:len(sig)-1], false)
+				run("empty", msg, nil, false)
+				if kp.Kind == "ec" && len(sig) > 8 && sig[0] == 0x30 && sig[1] < 0x7d {
+					// SEQUENCE{r, s, INTEGER 1}: an extra element inside the sequence
+					ext := append([]byte{}, sig...)
+					ext = append(ext, 0x02, 0x01, 0x01)
+					ext[1] += 3
+					run("extra-element", msg, ext, false)
+					// non-minimal length form of the outer SEQUENCE
+					nm := append([]byte{0x30, 0x81, sig[1]}, sig[2:]...)
+					run("long-form-length", msg, nm, false)
+				}
+				if kp.Kind == "rsa" {
+					// genuine signatures whose first octet is zero (about one in 256): sign until a few are found
+					found := 0
+					for i := 0; i < c.N(1500, 6000) && found < 3; i++ {
+						m := r.Bytes(24)
+						s := kp.Sign(m)
+						if s[0] == 0 {
+							found++
+							run("genuine-leading-zero-octet", m, s, true)
+							run("leading-zero-octet-stripped", m, s[1:], false)
+						}
+					}
+				}
+			}
+		}},
 		Stream{"verify.bitflips", func(c *Ctx) {
 			r := c.R
 			for _, alg := range allAlgs {
